@@ -1237,8 +1237,12 @@ class EKF:
         numpy.ndarray
             Expected Measurements.
         """
+        return self._h(q, self.mag is not None)
+
+    def _h(self, q: np.ndarray, with_mag: bool) -> np.ndarray:
+        """Measurement model for a sample with (6 elements) or without (3 elements) magnetometer."""
         C = Quaternion(q).to_DCM().T
-        if self.mag is None:
+        if not with_mag:
             return C @ self.a_ref
         return np.r_[C @ self.a_ref, C @ self.m_ref]
 
@@ -1299,13 +1303,17 @@ class EKF:
         H : numpy.ndarray
             Jacobian of observations.
         """
+        return self._dhdq(q, mode, self.mag is not None)
+
+    def _dhdq(self, q: np.ndarray, mode: str, with_mag: bool) -> np.ndarray:
+        """Jacobian of the measurement model for a sample with or without magnetometer."""
         if mode.lower() not in ['normal', 'refactored']:
             raise ValueError(f"Mode '{mode}' is invalid. Try 'normal' or 'refactored'.")
         qw, qx, qy, qz = q
         if mode.lower() == 'refactored':
             t = skew(self.a_ref)@q[1:]
             H = np.c_[t, q[1:]*self.a_ref*np.identity(3) + skew(t + qw*self.a_ref) - np.outer(self.a_ref, q[1:])]
-            if self.mag is not None:
+            if with_mag:
                 t = skew(self.m_ref)@q[1:]
                 H_2 = np.c_[t, q[1:]*self.m_ref*np.identity(3) + skew(t + qw*self.m_ref) - np.outer(self.m_ref, q[1:])]
                 H = np.vstack((H, H_2))
@@ -1314,7 +1322,7 @@ class EKF:
         H = np.array([[ v[0]*qw + v[1]*qz - v[2]*qy, v[0]*qx + v[1]*qy + v[2]*qz, -v[0]*qy + v[1]*qx - v[2]*qw, -v[0]*qz + v[1]*qw + v[2]*qx],
                       [-v[0]*qz + v[1]*qw + v[2]*qx, v[0]*qy - v[1]*qx + v[2]*qw,  v[0]*qx + v[1]*qy + v[2]*qz, -v[0]*qw - v[1]*qz + v[2]*qy],
                       [ v[0]*qy - v[1]*qx + v[2]*qw, v[0]*qz - v[1]*qw - v[2]*qx,  v[0]*qw + v[1]*qz - v[2]*qy,  v[0]*qx + v[1]*qy + v[2]*qz]])
-        if self.mag is not None:
+        if with_mag:
             H_2 = np.array([[ v[3]*qw + v[4]*qz - v[5]*qy, v[3]*qx + v[4]*qy + v[5]*qz, -v[3]*qy + v[4]*qx - v[5]*qw, -v[3]*qz + v[4]*qw + v[5]*qx],
                             [-v[3]*qz + v[4]*qw + v[5]*qx, v[3]*qy - v[4]*qx + v[5]*qw,  v[3]*qx + v[4]*qy + v[5]*qz, -v[3]*qw - v[4]*qz + v[5]*qy],
                             [ v[3]*qy - v[4]*qx + v[5]*qw, v[3]*qz - v[4]*qw - v[5]*qx,  v[3]*qw + v[4]*qz - v[5]*qy,  v[3]*qx + v[4]*qy + v[5]*qz]])
@@ -1373,9 +1381,9 @@ class EKF:
         Q_t = self.g_noise * W@W.T              # Process Noise Covariance
         P_t = F@self.P@F.T + Q_t                # Predicted Covariance Matrix
         # ----- Correction -----
-        y   = self.h(q_t)                       # Expected Measurement function
+        y   = self._h(q_t, mag is not None)         # Expected Measurement function
         v   = z - y                             # Innovation (Measurement Residual)
-        H   = self.dhdq(q_t)                    # Linearized Measurement Matrix
+        H   = self._dhdq(q_t, 'normal', mag is not None)  # Linearized Measurement Matrix
         S   = H@P_t@H.T + self.R                # Measurement Prediction Covariance
         K   = P_t@H.T@np.linalg.inv(S)          # Kalman Gain
         self.P = (np.identity(4) - K@H)@P_t     # Updated Covariance Matrix
